@@ -2,7 +2,8 @@
    abel.rbasex.rbasex_transform (abel/rbasex.py):
      odd resolution                                  rbasex.py:175-178
      output size per `out`                           rbasex.py:215-232
-     _get_image_bs (incl. the module cache _ibs)     rbasex.py:296-343
+     _get_image_bs (incl. the module cache
+     _ibs_prm / _ibs)                                rbasex.py:299-351
      _image                                          rbasex.py:346-363
      unfolding / mirroring / final crop              rbasex.py:238-253
    The Distributions object `_dst` is the geometry record of DistrGeom.v;
@@ -26,17 +27,28 @@ Definition out_dims (out : outv) (g : geom) : nat * nat * nat :=
                             if odd then g_rmax g else 0)
   end.
 
-(* the image basis actually used: (height, width, origin row of the arrays).
+(* the image basis: (height, width, origin row of the arrays).
    When the requested size equals the quadrant of _dst its arrays are reused
-   (their origin row is y0); the module-level cache _ibs, when filled, is
-   returned whatever the request is (rbasex.py:299-302). *)
+   (their origin row is y0). *)
 Definition ibs := (nat * nat * nat)%type.
 Definition fresh_ibs (g : geom) (req : nat * nat * nat) : ibs :=
   let '(height, width, row) := req in
   if Nat.eqb height (g_Qh g) && Nat.eqb width (g_Qw g) then (height, width, g_y0 g)
   else (height, width, row).
-Definition get_image_bs (cache : option ibs) (g : geom) (req : nat * nat * nat) : ibs :=
-  match cache with Some bs => bs | None => fresh_ibs g req end.
+
+(* the module-level cache: (_ibs_prm, _ibs), None when _ibs is None.  It is
+   reused only for the same request [height, width, row] (rbasex.py:304-310)
+   and reset whenever _dst is replaced (rbasex.py:285) or by cache_cleanup(). *)
+Definition ibs_cache := option ((nat * nat * nat) * ibs).
+Definition req_eqb (a b : nat * nat * nat) : bool :=
+  Nat.eqb (fst (fst a)) (fst (fst b)) && Nat.eqb (snd (fst a)) (snd (fst b)) && Nat.eqb (snd a) (snd b).
+(* returns the basis used and the new state of the cache *)
+Definition get_image_bs (cache : ibs_cache) (g : geom) (req : nat * nat * nat) : ibs * ibs_cache :=
+  match cache with
+  | Some (k, bs) => if req_eqb k req then (bs, cache)
+                    else let bs' := fresh_ibs g req in (bs', Some (req, bs'))
+  | None => let bs' := fresh_ibs g req in (bs', Some (req, bs'))
+  end.
 
 Section Image.
   Variable A : Type.
@@ -98,9 +110,16 @@ Section Image.
     | _ => X
     end.
 
-  (* rbasex_transform(...)[0] for out != None, given the state of the _ibs cache *)
-  Definition recon (cache : option ibs) (out : outv) (g : geom) (c : list (list A)) : img :=
-    assemble out g (image (get_image_bs cache g (out_dims out g)) (g_odd g) (g_rmax g) c).
+  (* rbasex_transform(...)[0] for out != None, given the state of the _ibs
+     cache; and the state it leaves *)
+  Definition recon (cache : ibs_cache) (out : outv) (g : geom) (c : list (list A)) : img :=
+    assemble out g (image (fst (get_image_bs cache g (out_dims out g))) (g_odd g) (g_rmax g) c).
+  Definition cache_after (cache : ibs_cache) (out : outv) (g : geom) : ibs_cache :=
+    snd (get_image_bs cache g (out_dims out g)).
+  (* the cache after a history of calls with the same image parameters (same
+     _dst) and the given out values, starting from a clean state *)
+  Definition cache_after_history (g : geom) (history : list outv) : ibs_cache :=
+    fold_left (fun st o => cache_after st o g) history None.
 End Image.
 
 (* shape of an array *)
